@@ -15,7 +15,7 @@ CORR_BITS = (0, 1)          # model/implementation disagree; an oracle value vio
 def sizes(tier):
     if tier == "quick":
         return dict(replay=260, stub=220, alm=120, max_n=7, max_len=8, max_calls=4)
-    return dict(replay=4000, stub=3000, alm=2000, max_n=10, max_len=10, max_calls=6)
+    return dict(replay=3000, stub=2500, alm=2000, max_n=10, max_len=10, max_calls=6)
 
 
 def corpus_cases(kind):
@@ -39,11 +39,11 @@ def streams(tier, seed, view=mc):
     if tier == "quick":
         exh = [c for i, c in enumerate(exh) if i % 24 == seed % 24]
     out = [("msa_corpus", view, corpus_cases("msa"), "msa_case", "msa_case_code"),
-           ("msa_exhaustive", view, exh, "msa_case", "msa_case_code"),
            ("msa_replay", view, replay, "msa_case", "msa_case_code"),
            ("msa_stub", view, stub, "msa_case", "msa_case_code")]
-    if view is mc:          # the Alignments clause belongs to C04 only
-        out += [("alm_corpus", mc.AlmView, corpus_cases("alm"), "alm_case", "alm_case_code"),
+    if view is mc:          # the exhaustive prog_align scope and the Alignments clause belong to C04 only
+        out += [("msa_exhaustive", view, exh, "msa_case", "msa_case_code"),
+                ("alm_corpus", mc.AlmView, corpus_cases("alm"), "alm_case", "alm_case_code"),
                 ("alignments", mc.AlmView, alm, "alm_case", "alm_case_code")]
     return out
 
